@@ -11,6 +11,7 @@ import BurrowVerif.Proofs.TmplData
 import BurrowVerif.Model.Json
 import BurrowVerif.Proofs.TmplDataJson
 import BurrowVerif.Proofs.TmplDataFloats
+import BurrowVerif.Proofs.TmplHelpers
 
 namespace Burrow.Props.C20
 open Burrow Burrow.Tmpl Burrow.Spec.Tmpl Burrow.Generated
@@ -223,5 +224,28 @@ example : ProblemsHaveEnds sampleNotification.result := by
 example : (shippedTemplates.head?.map fun nt =>
     (exec (refine dataSchema) ⟨fun _ _ => "T", fun _ => "0.5", "[]"⟩ nt.2
       (dataVal ⟨fun _ => 0, fun _ => 0⟩ sampleNotification)).isOk) = some true := by decide
+
+/-! ### the partition helpers of the documented function map -/
+
+/-- **`topicsbystatus` puts a topic under a status name exactly when one of the listed partitions of that
+    topic is in that status** (for every partition list) -/
+theorem topicsbystatus_lists_the_topics_of_each_status (ps : List HPart) (s t : String) :
+    (∃ ts, (s, ts) ∈ topicsByStatus ps ∧ t ∈ ts) ↔ ∃ p ∈ ps, statusName p.status = s ∧ p.topic = t :=
+  topicsByStatus_spec ps s t
+
+/-- … with each status name and, under it, each topic once -/
+theorem topicsbystatus_has_no_repeats (ps : List HPart) :
+    ((topicsByStatus ps).map (·.1)).Nodup ∧ ∀ kv ∈ topicsByStatus ps, kv.2.Nodup :=
+  ⟨topicsByStatus_keys_nodup ps, topicsByStatus_topics_nodup ps⟩
+
+/-- **`partitioncounts` counts every listed partition that is not OK exactly once** -/
+theorem partitioncounts_counts_each_problem_once (ps : List HPart) :
+    ((partitionCounts ps).map (·.2)).sum = (ps.filter fun p => p.status != 1).length :=
+  partitionCounts_total ps
+
+/-- a topic with partitions in two states is listed under both -/
+example : topicsByStatus [⟨2, "a"⟩, ⟨4, "a"⟩, ⟨2, "b"⟩, ⟨2, "a"⟩] = [("WARN", ["a", "b"]), ("STOP", ["a"])] := by decide
+example : partitionCounts [⟨2, "a"⟩, ⟨4, "a"⟩, ⟨1, "b"⟩, ⟨3, "a"⟩] =
+    [("rewind", 0), ("stall", 0), ("stop", 1), ("unknown", 1), ("warn", 1)] := by decide
 
 end Burrow.Props.C20
